@@ -179,7 +179,13 @@ loop:
 			break loop
 		case <-tick.C:
 			st.mu.Lock()
-			if !st.cancelled && time.Since(st.lastEvent) > quiesce {
+			q := quiesce
+			for _, p := range st.last {
+				if p == "exec.before" {
+					q = 6 * quiesce // a child process needs time to start and to install its signal handlers
+				}
+			}
+			if !st.cancelled && time.Since(st.lastEvent) > q {
 				st.doCancel(true) // quiescent before step k: cancel now
 			}
 			over := st.cancelled && time.Since(st.cancelAt) > bound
